@@ -91,12 +91,22 @@ def run(ctx, case):
     for m in maps[:2]:
         for rnd_ in (0, 1):
             if rnd_ == 1:
-                if len(m.bpms) < 2 or ctx.cur_k is None or ctx.cur_k % 3:
+                if len(m.bpms) < 2 or ctx.cur_k is None or ctx.cur_k % 3 == 2:
                     break
-                # in-place edit of the tempo list (same frame object): values rotated, so another bpm runs longest
-                vals = m.bpms.bpm.tolist()
-                m.bpms.bpm = vals[1:] + vals[:1]
-                ctx.state("c19.edited_in_place", True)
+                if ctx.cur_k % 3 == 0:
+                    # in-place edit of the tempo list (same frame object): values rotated, so another bpm runs longest
+                    vals = m.bpms.bpm.tolist()
+                    m.bpms.bpm = vals[1:] + vals[:1]
+                    ctx.state("c19.edited_in_place", "tempo values")
+                else:
+                    # in-place edit of the notes (same frame object): the last object moves a minute later, so the last tempo runs longer
+                    lst = m.hits if len(m.hits) else m.holds
+                    if not len(lst):
+                        break
+                    offs = lst.offset.to_numpy().copy()
+                    offs[offs.argmax()] += 60000.0
+                    lst.offset = offs
+                    ctx.state("c19.edited_in_place", "last object")
             run_queries(m, case, dominant_bpm, scroll_speed, sv_normalize)
     return
 
